@@ -533,11 +533,24 @@ SPECS = [
     OSpec('SamplingOperator', [dict(k='s', variant='point_eval'), dict(k='s', variant='integrate'),
                                dict(k='s', variant='point_eval', dom='ud23b'),
                                dict(k='s', variant='point_eval', dom='rn23'),
-                               dict(k='s', variant='integrate', pts=[[0, 0], [1, 1]])],
+                               dict(k='s', variant='integrate', pts=[[0, 0], [1, 1]]),
+                               # runs of consecutive flat indices (part of a row, a whole row, one
+                               # point, a decreasing run): where a gather could become a view
+                               dict(k='s', variant='integrate', pts=[[0, 0], [0, 1]]),
+                               dict(k='s', variant='integrate', pts=[[1, 1, 1], [0, 1, 2]]),
+                               dict(k='s', variant='integrate', pts=[[1], [2]]),
+                               dict(k='s', variant='integrate', pts=[[0, 0, 1, 1], [1, 2, 0, 1]]),
+                               dict(k='s', variant='integrate', pts=[[1, 1], [1, 0]]),
+                               dict(k='s', variant='point_eval', pts=[[0, 0], [0, 1]]),
+                               dict(k='s', variant='point_eval', pts=[[1], [2]]),
+                               dict(k='s', variant='integrate', dom='ud23b', pts=[[0, 0], [1, 2]])],
           _sampling),
     OSpec('WeightedSumSamplingOperator', [dict(k='w', variant='char_fun'), dict(k='w', variant='dirac'),
                                           dict(k='w', variant='dirac', dom='ud23b'),
-                                          dict(k='w', variant='char_fun', pts=[[0, 0], [1, 1]])],
+                                          dict(k='w', variant='char_fun', pts=[[0, 0], [1, 1]]),
+                                          dict(k='w', variant='char_fun', pts=[[0, 0], [0, 1]]),
+                                          dict(k='w', variant='dirac', pts=[[1, 1, 1], [0, 1, 2]]),
+                                          dict(k='w', variant='dirac', pts=[[1], [2]])],
           _sampling),
     OSpec('FlatteningOperator', [dict(dom='rn23'), dict(dom='rn23', order='F'), dict(dom='ud23'),
                                  dict(dom='ud23', order='F'), dict(dom='cn23'), dict(dom='rn23w')],
